@@ -14,7 +14,8 @@ RULE = ("Hypothesis scenarios with 1-3 user sets (balls, half-spaces, boxes) bui
         "point, feasible, infeasible far away, infeasible by 1e-7 relative, on the boundary}, restarts on/off, "
         "dykstra.d_tol / dykstra.max_iters default or drawn, npt = n+1. The projection routine is observed through counting "
         "projector proxies (stop-by-rule vs sweep cap reconstructed from the proxies alone); distances to the sets are "
-        "computed by the harness from the set parameters. Non-trivial = an infeasible x0, or some evaluated point with >= 2 "
+        "computed by the harness from the set parameters; every projection call is also checked for having stopped early only "
+        "when its stopping quantity was below the configured (or default) tolerance. Non-trivial = an infeasible x0, or some evaluated point with >= 2 "
         "constraint sets active. Distinct = SHA-1 of the case JSON.")
 ASSUMPTIONS = ["every evaluated point is looked up (bit-identical) among the outputs of the logged projection calls; the lookup "
                "only selects the tolerance class: points produced by a call that hit the sweep cap are counted, not judged; "
@@ -136,6 +137,22 @@ def run(case):
         outs.setdefault(c["out"].tobytes(), c)
     lo, up = sc.user_bounds(case)
     max_active = 0
+    # every projection call must have been made with (at most) the configured or default tolerance and (at least) the
+    # configured or default sweep cap, may stop early only when its rule is met and must stop as soon as it is met
+    conf_tol = max(case["up"].get("dykstra.d_tol", 1e-10), 1e-10)
+    conf_cap = min(case["up"].get("dykstra.max_iters", 100), 100)
+    for c in log.calls:
+        if c["sweeps"] == 0:
+            continue
+        met = c["last"] < conf_tol
+        if not met and c["sweeps"] < conf_cap:
+            res.fail("C09.stopping_rule", "a projection call stopped after %d sweeps (cap %d) although its stopping quantity %r is not "
+                     "below the tolerance %r [call made with tol=%r, max_iter=%r]" % (c["sweeps"], conf_cap, c["last"], conf_tol, c["tol"], c["max_iter"]))
+            break
+        if c["early"] and c["tol"] >= 1e-10 * (1 - 1e-12):
+            res.fail("C09.stopping_rule", "a projection call went on although its stopping quantity %r was already below its tolerance %r"
+                     % (c["early"][0], c["tol"]))
+            break
     for i, (x, _) in enumerate(o.calls):
         c = outs.get(x.tobytes())
         if i == 0 and not infeasible0 and c is None:
